@@ -124,6 +124,8 @@ Section Dec.
       apply tame_bind; [apply tame_get_remaining; auto|]. intros [|? ?]; [apply tame_ret|].
       match goal with |- tame lo (if ?b then _ else _) => destruct b end; [apply tame_ret|apply tame_raise].
     - apply tame_bind; [apply tame_get_name; auto|]. intros; apply tame_ret.
+    - unfold dec_text_option. apply tame_bind; [apply tame_get_remaining; auto|]. intros text.
+      match goal with |- tame lo (if ?b then _ else _) => destruct b end; [apply tame_ret|apply tame_raise].
     - apply tame_bind; [apply tame_get_remaining; auto|]. intros; apply tame_ret.
   Qed.
 
